@@ -630,6 +630,7 @@ def run(ctx, out):
     if unreal:
         out.note("%d directed crash points were not reached (the directory never looked like that)" % unreal)
     out.note("leg C2S: %d chains validated by TLC" % out.traces_validated)
+    needs_leg(ctx, out)
     cov = out.extra["coverage_of_executed_chains"]
     for dim, need in (("end", ("returned", "raised", "crashed", "declined")), ("crash", ("kill", "intr", "none")), ("exc", ("DataError", "SystemSetupError", "NetError", "LibError")), ("eol", ("lf", "crlf"))):
         for k in need:
@@ -637,10 +638,125 @@ def run(ctx, out):
                 out.vacuous.append("%s=%s never observed on the real code" % (dim, k))
 
 
+# ---------------------------------------------------------------------------------------------------
+# needs leg: WHICH document files preparation is asked for ("every document file the challenge needs"): specs/CorpusPrep/Needed.tla
+# against the real loader.used_corpora and DefaultTrackPreparator.on_prepare_track over real Track / Task / Parallel objects and the
+# real bulk parameter source (corpus / index selection per task)
+# ---------------------------------------------------------------------------------------------------
+def needs_run_case(tid, case):
+    import logging
+
+    from esrally.track import loader, track
+
+    logging.getLogger("esrally.track").setLevel(logging.ERROR)
+    files = case["files"]
+    corpora = []
+    for cname in sorted({f["c"] for f in files}):
+        docs = [
+            track.Documents(source_format=track.Documents.SOURCE_FORMAT_BULK, document_file=f["f"] + ".json", document_archive=f["f"] + ".json.bz2", number_of_documents=10, compressed_size_in_bytes=10, uncompressed_size_in_bytes=100, target_index=f["i"])
+            for f in files
+            if f["c"] == cname
+        ]
+        corpora.append(track.DocumentCorpus(cname, documents=docs))
+    n = 0
+    schedule = []
+    for el in case["s"]:
+        leaves = []
+        for t in el:
+            n += 1
+            prm = {"bulk-size": 5, "corpora": list(t["corp"])}
+            if "*" not in t["idx"]:
+                prm["indices"] = list(t["idx"])
+            leaves.append(track.Task("t%d" % n, track.Operation("bulk%d" % n, track.OperationType.Bulk.to_hyphenated_string(), params=prm), clients=1))
+        schedule.append(leaves[0] if len(leaves) == 1 and not case.get("par") else track.Parallel(leaves))
+    trk = track.Track(name="verif", corpora=corpora, challenges=[track.Challenge("c", default=True, schedule=schedule)])
+    by_file = {f["f"] + ".json": f for f in files}
+    item = {"id": tid, "files": files, "s": case["s"], "case": case}
+    try:
+        prepared = []
+        for _fn, prm in loader.DefaultTrackPreparator().on_prepare_track(trk, "/nonexistent/data"):
+            for d in prm["corpus"].documents:
+                prepared.append(by_file[d.document_file])
+        item["prepared"] = [x for k, x in enumerate(prepared) if x not in prepared[:k]]
+    except tlc.MachineryError:
+        raise
+    except Exception as ex:  # pylint: disable=broad-except
+        item["prepared"] = []
+        item["crash"] = "%s: %s" % (type(ex).__name__, ex)
+    return item
+
+
+def needs_cases(seed, n):
+    rnd = random.Random(seed)
+    cases = []
+    for _ in range(n):
+        corp = ["a", "b", "c"][: rnd.randint(1, 3)]
+        idxs = ["i1", "i2", "i3"][: rnd.randint(1, 3)]
+        files = []
+        for c in corp:
+            for k, i in enumerate(rnd.sample(idxs, rnd.randint(1, len(idxs)))):
+                files.append({"c": c, "i": i, "f": "%s%d" % (c, k + 1)})
+
+        def task():
+            for _try in range(50):
+                t = {"corp": sorted(rnd.sample(corp, rnd.randint(1, len(corp)))), "idx": ["*"] if rnd.random() < 0.3 else sorted(rnd.sample(idxs, rnd.randint(1, len(idxs))))}
+                # the real parameter source refuses a task whose selection is empty for EVERY named corpus and skips corpora without a match
+                if all(any(f["c"] == c and ("*" in t["idx"] or f["i"] in t["idx"]) for f in files) for c in t["corp"]):
+                    return t
+            return {"corp": [corp[0]], "idx": ["*"]}
+
+        s = [[task() for _ in range(rnd.choice([1, 1, 2, 3]))] for _ in range(rnd.randint(1, 4))]
+        cases.append({"files": files, "s": s, "par": rnd.random() < 0.3})
+    return cases
+
+
+def needs_leg(ctx, out):
+    wd = tlc.prepare_workdir("CorpusPrep", "c14needs")
+    res = tlc.run_tlc(wd, "MC_Needed", "Needed.quick.cfg", timeout=600, allow_violation=True)
+    out.add_tlc(res)
+    if not res.ok:
+        raise tlc.MachineryError("Needed.tla violates %s" % res.invariant_violated)
+    wd2 = tlc.prepare_workdir("CorpusPrep", "c14needspinned")
+    res2 = tlc.run_tlc(wd2, "MC_Needed", "Needed.pinned.cfg", timeout=600, allow_violation=True)
+    if res2.invariant_violated != "PropertyHolds":
+        raise tlc.MachineryError("self-test failed: the variant in which a later schedule item replaces a corpus entry does not violate NeededComplete in the model")
+    cases = needs_cases(ctx.seed + 1414, 400 if ctx.quick else 6000)
+    # the shortest history of the kind: one corpus, two files, two separate schedule items selecting one file each
+    cases.insert(0, {"files": [{"c": "a", "i": "i1", "f": "a1"}, {"c": "a", "i": "i2", "f": "a2"}], "s": [[{"corp": ["a"], "idx": ["i1"]}], [{"corp": ["a"], "idx": ["i2"]}]], "par": False})
+    items = [needs_run_case("needs-%d" % k, c) for k, c in enumerate(cases)]
+    index = {it["id"]: it for it in items}
+    v = tracecheck.validate("CorpusPrep", "TraceNeeded", "TraceNeeded.cfg", [{k: x for k, x in it.items() if k in ("id", "files", "s", "prepared")} for it in items], name="c14needs-trace", timeout=900)
+    out.traces_validated += v.accepted(len(items))
+    for it in items:
+        out.add_case(("needs", it["files"], it["s"], it["case"].get("par")), nontrivial=len(it["s"]) > 1)
+    bad = 0
+    for tid in v.l1:
+        it = index[tid]
+        bad += 1
+        case = dict(it["case"], needs_leg=True)
+        missing = [f["f"] for f in it["files"] if f not in it["prepared"]]
+        out.violations.append(Violation("NeededComplete", case, signature={"clauses": ["NeededComplete"], "leg": "needs", "schedule_items": min(len(it["s"]), 3), "crash": bool(it.get("crash"))}, detail="needs leg: files=%s schedule=%s -> prepared=%s (never asked for: some of %s) %s" % ([(f["f"], f["c"], f["i"]) for f in it["files"]], it["s"], [f["f"] for f in it["prepared"]], missing, it.get("crash", ""))))
+    for tid in v.l2:
+        if tid not in v.l1:
+            it = index[tid]
+            out.drift.append("needs leg %s: prepared %s for files=%s schedule=%s is not the transcription's result" % (tid, [f["f"] for f in it["prepared"]], [(f["f"], f["c"], f["i"]) for f in it["files"]], it["s"]))
+    out.extra["needs_leg"] = {"model_states": res.distinct, "tracks": len(items), "with_several_schedule_items_on_one_corpus": sum(1 for it in items if len(it["s"]) > 1), "violating": bad}
+    out.note("needs leg: Needed.tla %d states; %d tracks through the real used_corpora / DefaultTrackPreparator.on_prepare_track, %d violating" % (res.distinct, len(items), bad))
+    return bad
+
+
+
 def replay(ctx, case):
     from ..core import Outcome
 
     out = Outcome(ctx.pid)
+    if case.get("needs_leg"):
+        it = needs_run_case("replay", case)
+        v = tracecheck.validate("CorpusPrep", "TraceNeeded", "TraceNeeded.cfg", [{k: x for k, x in it.items() if k in ("id", "files", "s", "prepared")}], name="c14needs-replay")
+        print("files=%s schedule=%s prepared=%s %s" % (it["files"], it["s"], [f["f"] for f in it["prepared"]], it.get("crash", "")))
+        if v.l1:
+            print("VIOLATION property=C14 clause=NeededComplete")
+        return 1 if v.l1 else 0
     c = dict(case)
     c["id"] = "replay"
     run_cases([c], out, "replay", tlc.scratch("c14-sandbox"))
